@@ -6,6 +6,9 @@ use vstd::prelude::*;
 
 verus! {
 
+// the crate is verified for 64-bit targets (A1)
+global size_of usize == 8;
+
 /*@rules R1 R2(elem=(Range<u32>, T)) R3 R4 R5 R6 R9 R10 @*/
 
 pub mod vx_base {
@@ -350,8 +353,33 @@ pub mod vx_ids {
                 r.is_none() ==> forall|i: int| 0 <= i < self@.len() ==> (#[trigger] self@[i]).0.end <= clock,
                 r.is_some() ==> r.unwrap() < self@.len() && clock < self@[r.unwrap() as int].0.end
                     && forall|i: int| 0 <= i < r.unwrap() ==> (#[trigger] self@[i]).0.end <= clock,
-                @loop 1
+        @start
+            proof { axiom_vec_len_bound(&self.0); }
+        @loop 1
+            invariant
+                canon(self@),
+                0 < self@.len() <= 0x0fff_ffff_ffff_ffff,
+                left <= self@.len(),
+                right < self@.len(),
+                forall|i: int| 0 <= i < left ==> (#[trigger] self@[i]).0.end <= clock,
+                forall|i: int| right < i < self@.len() ==> clock < (#[trigger] self@[i]).0.start,
+            ensures
+                left <= self@.len(),
+                forall|i: int| 0 <= i < left ==> (#[trigger] self@[i]).0.end <= clock,
+                left < self@.len() ==> clock < self@[left as int].0.end,
             decreases right + 1 - left,
+        @before 1 `left = mid + 1;`
+            proof {
+                assert forall|i: int| 0 <= i < mid + 1 implies (#[trigger] self@[i]).0.end <= clock by {
+                    if i < mid { assert(self@[i].0.end <= self@[mid as int].0.start); }
+                }
+            }
+        @before 1 `right = mid - 1;`
+            proof {
+                assert forall|i: int| mid - 1 < i < self@.len() implies clock < (#[trigger] self@[i]).0.start by {
+                    if mid < i { assert(self@[mid as int].0.end <= self@[i].0.start); }
+                }
+            }
         @*/
 
         /*@extract yrs/src/ids.rs | impl<T: Merge> IdRanges<T> | fn remove
@@ -361,8 +389,106 @@ pub mod vx_ids {
                 canon(final(self)@),
                 forall|c: int| covers(final(self)@, c) <==> covers(old(self)@, c) && !inr(range, c),
                 forall|c: int| covers(final(self)@, c) ==> val_at(final(self)@, c) == val_at(old(self)@, c),
-                @loop 1
+        @start
+            let ghost s0 = self@;
+        @before 2 `return;`
+            proof {
+                // every entry ends at or before range.start: nothing to remove
+                assert forall|c: int| covers(s0, c) implies !inr(range, c) by {
+                    let k = idx_of(s0, c);
+                    assert(inr(s0[k].0, c));
+                }
+            }
+        @after 1 `if i >= self.0.len() {`
+            proof {
+                // entries before i end at or before range.start; entry i ends after it
+                assert(forall|k: int| 0 <= k < i ==> (#[trigger] s0[k]).0.end <= range.start);
+                assert(s0[i as int].0.end > range.start);
+            }
+            let ghost i0 = i as int;
+        @before 3 `return;`
+            proof {
+                lemma_split(s0, i0, range.start, range.end, self@);
+            }
+        @after 1 `if self.0[i].0.start < range.start {`
+            let ghost s1 = self@;
+            proof {
+                if s0[i0].0.start < range.start {
+                    lemma_set_end(s0, i0, range.start, s1);
+                    assert(i == i0 + 1);
+                } else {
+                    assert(s1 == s0 && i == i0);
+                }
+                // s1: canon; covers(s1, c) <==> covers(s0, c) && !(c in [range.start, s0[i0].end) when trimmed)
+                // all entries before i end at or before range.start, all entries from i on start at or after it
+                assert forall|k: int| 0 <= k < i implies (#[trigger] s1[k]).0.end <= range.start by {
+                    if k < i0 { assert(s1[k] == s0[k]); }
+                }
+                assert forall|k: int| i <= k < s1.len() implies range.start <= (#[trigger] s1[k]).0.start by {
+                    assert(s1[k] == s0[k]);
+                    if k > i0 { assert(s0[i0].0.end <= s0[k].0.start); }
+                }
+            }
+        @loop 1
+            invariant
+                self@ == s1,
+                canon(s1),
+                i <= j <= s1.len(),
+                forall|k: int| i <= k < j ==> (#[trigger] s1[k]).0.end <= range.end,
             decreases self.0.len() - j,
+        @after 1 `while j < self.0.len() && self.0[j].0.end <= range.end`
+            proof {
+                // entries from j on end after range.end
+                assert forall|k: int| j <= k < s1.len() implies range.end < (#[trigger] s1[k]).0.end by {
+                    if k > j { assert(s1[j as int].0.end <= s1[k].0.start); }
+                }
+            }
+        @after 1 `if j < self.0.len() && self.0[j].0.start < range.end {`
+            let ghost s2 = self@;
+            proof {
+                if j < s1.len() && s1[j as int].0.start < range.end {
+                    lemma_set_start(s1, j as int, range.end, s2);
+                } else {
+                    assert(s2 == s1);
+                }
+                assert forall|k: int| j <= k < s2.len() implies range.end <= (#[trigger] s2[k]).0.start by {
+                    if k > j { assert(s1[j as int].0.end <= s1[k].0.start); assert(s2[k] == s1[k]); }
+                }
+                assert forall|k: int| i <= k < j implies range.start <= (#[trigger] s2[k]).0.start && s2[k].0.end <= range.end by {
+                    assert(s2[k] == s1[k]);
+                }
+                assert forall|k: int| 0 <= k < i implies (#[trigger] s2[k]).0.end <= range.start by {
+                    assert(s2[k] == s1[k]);
+                }
+            }
+        @end
+            proof {
+                let s3 = self@;
+                if j > i {
+                    lemma_cut_elems(s2, i as int, j as int, s3);
+                    lemma_cut(s2, i as int, j as int, s3);
+                } else {
+                    assert(s3 == s2);
+                }
+                assert forall|c: int| covers(s3, c) <==> covers(s0, c) && !inr(range, c) by {
+                    if covers(s3, c) {
+                        let k = idx_of(s3, c);
+                        assert(inr(s3[k].0, c));
+                    }
+                    if covers(s0, c) && !inr(range, c) {
+                        let k = idx_of(s0, c);
+                        assert(inr(s0[k].0, c));
+                    }
+                    if covers(s2, c) {
+                        let k = idx_of(s2, c);
+                        assert(inr(s2[k].0, c));
+                        if i <= k < j {
+                            if (i as int) < k { assert(s2[i as int].0.end <= s2[k].0.start); }
+                            if k < j - 1 { assert(s2[k].0.end <= s2[j - 1].0.start); }
+                        }
+                    }
+                }
+            }
         @*/
 
     }
